@@ -185,8 +185,8 @@ def check(case, acc):
 
     def run():
         r = call()
-        if op in ("argmax", "argmin") and form != "none":
-            tap_array(r)
+        if form != "none":
+            tap_array(r)        # C19: the element dtype of every row-reduction result (data-valued, or a position) is compared across configurations
         if form == "none":
             return ("S", pyval(r if not isinstance(r, np.ndarray) else r[()]))
         a = np.asarray(r)
